@@ -10,7 +10,7 @@ Model driver for C12 (node retirement controller).
 
 Op lines (a case starts with `reset`):
   reset k=<kind,kind,...> [stop=later|inline1|inline0]
-                              kinds: raw | nok | nno | nnl | dead  (empty list: no hosted service);
+                              kinds: raw | nok | nno | nnl | nem | dead  (empty list: no hosted service);
                               stop: the INodeApp completes StopNode later (op stopdone) / inside the call with true / false
   cmd <name>                  stat | retire | exit | web_nodes | web_retire | web_exit | anything else
   qack i=<idx> res=<text>     scripted service s<idx> answers its pending queryretire with <text>
@@ -18,13 +18,17 @@ Op lines (a case starts with `reset`):
   svccmd i=<idx> c=<text>     ctrl.servicecmd with another command
   stopdone succ=0|1           the INodeApp completes the oldest outstanding StopNode
   tick                        40 s pass
+  res i=<idx> up=0|1          INodeApp.GetService(s<idx>) starts returning nil / the pid again
+(reset also takes lst=<P|M...>: how the node's service list interleaves configured (P) and
+unconfigured (M) names for the real App.FilterSelfServices; it does not concern the model)
 Observation: `r=<class> pub=<states as the provider saw them> upd=<states as the node issued them> stop=<n> sent=<s<i>:<cmd>,...> st=<state>`
 -/
 namespace Cell2v.Driver.C12
 open Cell2v.Driver Cell2v.NodeCtrl
 
 def parseKind : String → Kind
-  | "raw" => .raw | "nok" => .nodeOk | "nno" => .nodeNo | "nnl" => .nodeNoListener | _ => .dead
+  | "raw" => .raw | "nok" => .nodeOk | "nno" => .nodeNo | "nnl" => .nodeNoListener | "nem" => .nodeEmpty
+  | _ => .dead
 
 def parseKinds (ws : List String) : List Kind :=
   match kv ws "k" with
@@ -114,7 +118,7 @@ def step (d : DSt) (line : String) : DSt × String :=
         if c == "retired" then
           let res := NodeCtrl.step true s (.svcRetired i)
           let isNode := match d.kinds[i]? with
-            | some .nodeOk | some .nodeNo | some .nodeNoListener => true
+            | some .nodeOk | some .nodeNo | some .nodeNoListener | some .nodeEmpty => true
             | _ => false
           fin (if isNode then "na" else replyOf res.2) res
         else
@@ -124,6 +128,7 @@ def step (d : DSt) (line : String) : DSt × String :=
         let res := NodeCtrl.step true s (.stopDone (kvNat ws "succ" == some 1))
         fin (if s.stopPend > 0 then "called" else "none") res
       | "tick" => fin "-" (NodeCtrl.step true s .tick)
+      | "res" => fin "-" (NodeCtrl.step true s (.setRes (parseIdx ws) (kvNat ws "up" == some 1)))
       | _ => (d, "bad-op")
   | none => (d, "bad-op")
 
@@ -190,6 +195,7 @@ def specStep (m : Option Mon) (line : String) : Option Mon × String :=
         if (kv ws "c").getD "" == "retired" then run m (.svcRetired (parseIdx ws)) else run m .svcOther
       | some "stopdone", some m => run m (.stopDone (r == "called") (kvNat ws "succ" == some 1))
       | some "tick", some m => run m .tick
+      | some "res", some m => run m (.setRes (parseIdx ws) (kvNat ws "up" == some 1))
       | _, _ => (m, "ok")
   | _ => (m, "bad-line")
 
